@@ -104,6 +104,8 @@ impl GenCfg {
 }
 
 pub const NAME_START: &[u8] = b"ghkmquvwz";
+/// mnemonics and keywords that a name may start with (`start`, `inc16`, `truecolor`, ...)
+pub const NAME_STEMS: &[&str] = &["sta", "inc", "true", "lda", "false", "and", "ascii", "bit", "else", "tax", "petscii", "as", "from", "rts", "Sta", "TRUE"];
 
 const KIND_ADDR: i64 = 0;
 const KIND_IMM: i64 = 1;
@@ -191,6 +193,11 @@ impl<'e> Builder<'e> {
     fn fresh(&mut self, prefix: &str) -> String {
         self.next_name += 1;
         let c = NAME_START[self.next_name % NAME_START.len()] as char;
+        if self.next_name % 4 == 3 {
+            // a name that merely starts with a mnemonic or a keyword
+            let stem = NAME_STEMS[(self.next_name / 4) % NAME_STEMS.len()];
+            return format!("{}{}{}", stem, prefix, self.next_name);
+        }
         format!("{}{}{}", c, prefix, self.next_name)
     }
 
